@@ -1503,11 +1503,18 @@ func c05c(c *Ctx, r *Report) {
 				return true
 			}
 			// the blanking: inline in the loop, or in a helper called with (row i of the table, default i)
+			gcf := newCoverFn(g)
 			isRow := func(info *types.Info, e ast.Expr) bool {
+				if info == ginfo {
+					e = gcf.resolve(e) // a local bound once to the row (e.g. a helper's parameter after inlining)
+				}
 				ix, ok := unparen(e).(*ast.IndexExpr)
 				return ok && identObj(info, ix.X) == tabObj && identObj(info, ix.Index) == iObj
 			}
 			isDef := func(info *types.Info, e ast.Expr) bool {
+				if info == ginfo {
+					e = gcf.resolve(e)
+				}
 				ix, ok := unparen(e).(*ast.IndexExpr)
 				return ok && identObj(info, ix.X) == defObj && identObj(info, ix.Index) == iObj
 			}
